@@ -1,31 +1,48 @@
 #![feature(allocator_api)]
 //@ unit validator
-// The scoping half of C23 on the real crates/air-lib/air-parser/src/parser/validator.rs: the RECORDING side of VariableValidator
-// (the `met_*` callbacks the generated parser calls once per instruction, children before parents, left before right) and Span
-// (span.rs). The DECIDING side (ValidatorErrorBuilder, finalize) is unit validator_finalize; both share the vocabulary below.
+// The scoping half of C23 on the real crates/air-lib/air-parser/src/parser/validator.rs (+ span.rs, the name()/lambda() accessors of ast/):
+//   RECORDING side: the `met_*` callbacks of VariableValidator, which the generated parser calls once per instruction with the instruction's
+//     span (children before parents, left before right);
+//   DECIDING side: ValidatorErrorBuilder::{new, check_undefined_variables, check_undefined_iterables, find_closest_fold_span,
+//     check_new_on_iterators, check_after_next_instr, build}, add_to_errors and VariableValidator::finalize.
 //
-// Reading of the property ("every variable used in an accepted script is defined earlier in the text or is an enclosing fold
-// iterator, and every next refers to an enclosing fold") on the validator's state:
+// Reading of the property ("every variable used in an accepted script is defined earlier in the text or is an enclosing fold iterator,
+// and every next refers to an enclosing fold") on the validator's state:
 //   * a use / definition / fold / next is the pair (name, span of its instruction); `a` is earlier in the text than `b` iff
 //     `span_before(a, b)` (a starts before b); a fold encloses a use iff `span_encloses(fold span, use span)`;
-//   * `resolved(name, span)`   = defined_before(name, span) || enclosing_iterator(name, span)   -- what the property asks of a use;
+//   * `resolved(name, span)`    = defined_before(name, span) || enclosing_iterator(name, span)  -- what the property asks of a use;
 //   * `use_covered(name, span)` = resolved(name, span) || the pair is in `unresolved_variables`  -- what a callback must establish for
-//     EVERY variable operand of its instruction (`*_uses` predicates below, written from the instruction definitions in ast/, not from
-//     the callbacks); `extends` says that later callbacks keep every earlier use covered (lemma use_covered_is_stable);
-//   * unit validator_finalize: finalize returns no error ==> every pair in `unresolved_variables` is resolved and every recorded
-//     next lies inside a fold with its iterator. Together: accepted ==> every use handed to a callback is resolved.
-// NOT here: that the generated LALR driver calls the callback of every instruction with that instruction's span (native jobs C23.scope.*).
+//     EVERY variable operand of its instruction (`*_uses` predicates, written from the instruction definitions in ast/, not from the
+//     callbacks); every output is recorded (`def_recorded`, `iterator_recorded`, `next_recorded`); `extends` says that later callbacks
+//     keep all of that (lemmas use_covered_is_stable, records_are_stable);
+//   * finalize returns no error ==> `all_recorded_uses_resolved` and (KNOWN FINDING b apart) `all_nexts_enclosed`;
+//   * lemma accepted_script_is_well_scoped puts the two sides together.
+// NOT here: that the generated LALR driver calls the callback of every instruction with that instruction's span, and that an accepted
+// tree has no error node (native jobs C23.scope.*); the lexers (C01.parse_total).
+//
+// KNOWN FINDINGS, each an obligation of its own that fails on the pinned tree and on nothing else:
+//   (b)      ValidatorErrorBuilder::check_undefined_iterables/all-spans   only the first `next` of every iterator name is checked
+//   (d-fail) VariableValidator::met_fail_literal/operand-route            the operand of `fail` is never inspected
+//   (VariableValidator::finalize/every-next-enclosed is the full statement about next, proved FROM the contract of (b).)
 //
 // Trusted part of this file:
 //  * AirPos shim: `struct AirPos(usize)` with the derived PartialEq/Eq/PartialOrd/Ord of a usize newtype (lexer/text_pos.rs);
 //    `derive(PartialEq)` of Span is structural equality; `std::cmp::min(a, b)` = `if b < a { b } else { a }` (std's definition);
 //  * MultiMap shim (multimap 0.9.1): view Map<K, Seq<V>>; `insert` pushes to the key's vector or creates `[v]`; `get_vec` is the lookup;
-//  * `&str` obeys the hash-table key model and `Borrow<str> for &str` is the identity (a `&str`-keyed map looked up by `&str`); Rc<Vec<T>>::deref gives the vector;
-//  * LambdaAST / NonEmpty (air-lambda-ast, non_empty_vec) shims: same variants; `iter()` of a NonEmpty is the slice iterator;
+//    `iter()` yields ONE pair per key, with the FIRST value; `flat_iter()` every (key, value) pair; every stored vector is non-empty;
+//  * `&str` obeys the hash-table key model and `Borrow<str> for &str` is the identity (a `&str`-keyed map looked up by `&str`);
+//    Rc::deref is the identity on the pointee; `Iterator::last` returns the last remaining element (`verif_last`);
+//  * LambdaAST / NonEmpty (air-lambda-ast, non_empty_vec): LambdaAST, ValueAccessor, Functor are lifted, NonEmpty is `NonEmpty(Vec<T>)`
+//    whose `iter()` is the slice iterator;
 //  * AfterNextCheckMachine is opaque (`met_instruction_kind` has no contract: it only touches the machine, an extra rule of the
 //    validator that the property does not mention); Instruction is opaque (the callbacks only test `last_instruction` for Some/None);
-//  * JsonString, Number payloads irrelevant.
-// Rewrites: see each lift (closure headers get their annotated form; `&ValueAccessor::..` pattern).
+//    ParserError / ParseError / ErrorRecovery / Token: shims, payloads irrelevant; the derived Default of the validator = all fields empty;
+//  * ASSUMED callees (outside the property; stubs with the contract "only ADD errors"): check_multiple_next_in_fold,
+//    check_iterator_for_multiple_definitions, check_for_unsupported_map_keys, check_for_unsupported_literal_errcodes; and
+//    sort_iterator_definitions ("permutes the folds of every iterator, nothing else": `iter_all_mut` + `sort`, outside Verus).
+// Rewrites (all local): closures get their annotated header; the receiver of `.any` is let-bound (ghost code must name the iterator);
+//    `.last()` -> `.verif_last()`; `for x in c` -> `for x in it: c.iter()`; `match accessor { &P => ..` -> `match *accessor { P => ..`;
+//    `fn f(mut self)` -> `fn f(self)` + `let mut this = self;` with `self` -> `this` in the body (Verus has no `mut self` parameter).
 use vstd::prelude::*;
 use vstd::std_specs::iter::IteratorSpec;
 use std::collections::HashMap;
@@ -270,7 +287,9 @@ impl ParserError {
 }
 impl<'name> AfterNextCheckMachine<'name> {
     #[verifier::external_body]
-    pub fn malformed_spans_iter(&self) -> core::slice::Iter<'_, Span> { unimplemented!() }
+    pub fn malformed_spans_iter(&self) -> (r: core::slice::Iter<'_, Span>)
+        ensures r.obeys_prophetic_iter_laws(), r.decrease() is Some
+    { unimplemented!() }
 }
 // `Iterator::last` (a provided method, which Verus cannot be given a specification for): the last of the remaining elements
 pub trait VerifLast: Iterator + Sized {
@@ -821,6 +840,37 @@ pub mod lemmas {
     }
 //@ end
 
+//@ lemma fold_order_keeps_the_verdicts props C23
+    pub broadcast proof fn fold_order_keeps_the_verdicts<'i>(a: &VariableValidator<'i>, b: &VariableValidator<'i>)
+        requires #[trigger] b.same_but_fold_order(a)
+        ensures
+            b.all_recorded_uses_resolved() == a.all_recorded_uses_resolved(),
+            b.all_nexts_enclosed() == a.all_nexts_enclosed(),
+            b.first_nexts_enclosed() == a.first_nexts_enclosed(),
+    {
+        assert forall|n: &'i str, s: Span| b.resolved(n, s) == a.resolved(n, s) && b.enclosing_iterator(n, s) == a.enclosing_iterator(n, s)
+            && b.recorded_use(n, s) == a.recorded_use(n, s) && b.next_recorded(n, s) == a.next_recorded(n, s) by {
+            fold_order_is_irrelevant(a, b, n, s);
+        }
+        assert(b.nexts() == a.nexts());
+    }
+//@ end
+
+    // THE TWO SIDES TOGETHER. `at_callback` is the state right after the callback of an instruction at `span` returned, `at_end` the state
+    // finalize is called on; if finalize reported nothing (its postconditions), then every operand the callback covered is in scope and
+    // every next it recorded lies inside a fold declaring its iterator -- judged on the final lists of definitions and folds.
+//@ lemma accepted_script_is_well_scoped props C23
+    pub proof fn accepted_script_is_well_scoped<'i>(at_callback: &VariableValidator<'i>, at_end: &VariableValidator<'i>, name: &'i str, span: Span)
+        requires at_end.extends(at_callback)
+        ensures
+            at_callback.use_covered(name, span) && at_end.all_recorded_uses_resolved() ==> at_end.resolved(name, span),
+            at_callback.next_recorded(name, span) && at_end.all_nexts_enclosed() ==> at_end.enclosing_iterator(name, span),
+    {
+        if at_callback.use_covered(name, span) { use_covered_is_stable(at_callback, at_end, name, span); }
+        if at_callback.next_recorded(name, span) { next_recorded_is_stable(at_callback, at_end, name, span); }
+    }
+//@ end
+
     // so do a recorded definition, a recorded fold iterator and a recorded next
 //@ lemma records_are_stable props C23
     pub broadcast proof fn def_recorded_is_stable<'i>(old_v: &VariableValidator<'i>, new_v: &VariableValidator<'i>, name: &'i str, span: Span)
@@ -849,7 +899,7 @@ pub mod callbacks {
         super::key_model::axiom_str_ref_borrows_str_value, super::seq_lemmas::lemma_push_contains,
         super::lemmas::extends_is_reflexive, super::lemmas::extends_is_transitive, super::lemmas::same_scoping_state_extends,
         super::lemmas::use_covered_is_stable, super::lemmas::def_recorded_is_stable, super::lemmas::iterator_recorded_is_stable,
-        super::lemmas::next_recorded_is_stable};
+        super::lemmas::next_recorded_is_stable, super::lemmas::fold_order_keeps_the_verdicts};
 
 impl<'i> VariableValidator<'i> {
 //@ lift crates/air-lib/air-parser/src/parser/validator.rs :: impl<'i> VariableValidator<'i> :: fn new
